@@ -16,8 +16,10 @@ var Check = core.Check{
 	ID:     "C04",
 	Level:  "exploration",
 	Shards: 16,
-	Run:    run,
-	Replay: replay,
+	// a decoder crash is property C06's subject; here the file is recorded as inconclusive
+	CrashIsInconclusive: true,
+	Run:                 run,
+	Replay:              replay,
 }
 
 func run(r *core.Run) {
